@@ -1234,6 +1234,12 @@ def run_c09(o, tier, rng, prep):
 
 # ================================================================= session properties (real binary)
 WS = [0x9, 0xa, 0xb, 0xc, 0xd, 0x20, 0x85, 0xa0, 0x1680] + list(range(0x2000, 0x200b)) + [0x2028, 0x2029, 0x202f, 0x205f, 0x3000]
+# option settings for options the engine does not have, in every shape a GUI may send: all are ignored
+SETOPTIONS = ["setoption", "setoption name", "setoption name Ponder", "setoption name Clear Hash", "setoption name Ponder true",
+              "setoption name Hash value 128", "setoption name DebugLogLevel value", "setoption name Clear Hash value",
+              "setoption name UCI_AnalyseMode value true", "setoption name Nalimov Path value c:\\chess\\tb 4;d:\\tb5",
+              "setoption value 3", "setoption name Threads value 4 extra"]
+
 GARBAGE = ["", " ", "   ", "\t", "xyzzy", "isreadyy", "go2", "Position startpos", "żółć", "∀x", "  ", "stop", "ponderhit",
            "debug on", "register later", "uci2", "0000", "quit now"[:4] + "x", "readyok", "bestmove e2e4", " isready"]
 
@@ -1798,7 +1804,7 @@ def run_c16(o, tier, rng, prep):
                 if kind == 0:
                     used.send("ucinewgame")
                 elif kind == 1:
-                    used.send("setoption name Foo value Bar")
+                    used.send(rng.choice(SETOPTIONS + ["setoption name Foo value Bar"]))
                 elif kind == 2:
                     used.send(rng.choice(GARBAGE))
                 else:
@@ -1909,11 +1915,11 @@ def run_c17(o, tier, rng, prep):
             eng.send("position startpos moves e2e4")
             script = []
             for _ in range(rng.randrange(3, 12)):
-                g = rng.choice(GARBAGE + ["go wtime 120 btime 120 movestogo 1 ponder searchmoves", "isready"])
+                g = rng.choice(GARBAGE + SETOPTIONS + ["go wtime 120 btime 120 movestogo 1 ponder searchmoves", "isready"])
                 script.append(g)
                 w = spec_words(g)
                 first = w[0] if w else ""
-                if first in ("quit", "position", "uci", "setoption", "ucinewgame"):
+                if first in ("quit", "position", "uci", "ucinewgame"):
                     continue
                 eng.send(g)
                 o.evaluations += 1
